@@ -66,7 +66,7 @@ pub(crate) struct Local {
 }
 
 pub(crate) struct Scope {
-    pub names: HashMap<String, usize>,
+    pub names: FxMap<String, usize>,
     pub declared: Vec<usize>,
 }
 
@@ -103,8 +103,8 @@ pub(crate) struct Checker<'a> {
     pub file: &'a File,
     pub tt: TypeTable,
     pub errors: Vec<GoError>,
-    pub pkg: HashMap<String, Obj>,
-    pub universe: HashMap<&'static str, Uni>,
+    pub pkg: FxMap<String, Obj>,
+    pub universe: FxMap<&'static str, Uni>,
     pub imports: Vec<ImportInfo>,
     pub funcs: Vec<FuncInfo>,
     alias_state: Vec<AliasState>,
@@ -128,7 +128,7 @@ const MAX_ZERO_SLOTS: u64 = 1 << 20;
 
 impl<'a> Checker<'a> {
     fn new(file: &'a File) -> Checker<'a> {
-        let mut universe = HashMap::new();
+        let mut universe: FxMap<&'static str, Uni> = FxMap::default();
         for (n, t) in [
             ("bool", T_BOOL),
             ("int8", T_I8),
@@ -172,7 +172,7 @@ impl<'a> Checker<'a> {
             file,
             tt: TypeTable::new(),
             errors: Vec::new(),
-            pkg: HashMap::new(),
+            pkg: FxMap::default(),
             universe,
             imports: Vec::new(),
             funcs: Vec::new(),
@@ -716,7 +716,7 @@ impl<'a> Checker<'a> {
     // ------------------------------------------------------------ scopes
 
     pub(crate) fn open_scope(&mut self) {
-        self.scopes.push(Scope { names: HashMap::new(), declared: Vec::new() });
+        self.scopes.push(Scope { names: FxMap::default(), declared: Vec::new() });
     }
 
     pub(crate) fn close_scope(&mut self) {
